@@ -68,7 +68,9 @@ impl<'a> Display<'a> {
         }
 
         let dot = if it.peek().is_some() {
-            true
+            // Integer digits were cut off, which only matters if any of
+            // them is non-zero or if there is a fraction.
+            it.clone().any(|d| d != '0') || !rem.is_zero()
         } else {
             let remaining = self.spec.limit - used;
 
@@ -78,11 +80,9 @@ impl<'a> Display<'a> {
                 for d in (&mut it).take(remaining) {
                     fmt::Display::fmt(&d, f)?;
                 }
-
-                it.next().is_some()
-            } else {
-                false
             }
+
+            !rem.is_zero()
         };
 
         if dot && self.spec.show_continuation {
